@@ -19,31 +19,42 @@ def run(tier, seed):
                                       wms=((0, 0), (0, 2), (1, 1)), durs=(0,), filtfn=fn, **kw)
     S = lambda df, D, **kw: bc.consts("sock", DATA | {"wmr", "shut", "free"}, D, drains=(0, 1, 99),
                                       wms=((0, 0), (0, 2)), durs=(0,), defer=df, **kw)
+    fn = ("two", "one", "id")[seed % 3]          # quick: one filter function / one callback mode per run, by seed
+    df = seed % 2 == 0
+    known = dict(name="C17_known_eof", key="pair-eof-before-data",
+                 consts=bc.consts("pair", {"write", "wmr", "flush", "finish"}, 3, sizes=(3,), wms=((0, 1),), durs=(0,),
+                                  allow=("pair_eof_before_data",)))
+    quick_gen = [
+        # every history of 3 steps of the data-path alphabet on a pair (TLC checks the invariants on every state of
+        # every such history: this run is also the bounded model check of the quick tier); the histories that meet
+        # the trigger of the known finding are its canonical scenarios
+        dict(name="C17_pair_exh", consts=bc.consts("pair", {"write", "enable", "loop", "flush", "finish", "script", "wmr"}, 3,
+                                                   sizes=(1, 3), drains=(0, 99), wms=((0, 0), (0, 1)), durs=(0,), script_until=1,
+                                                   allow=("pair_eof_before_data",)),
+             units=(1, 5000), known_keys={4: "pair-eof-before-data"}, invariants=inv),
+        dict(name="C17_pair_rand", consts=P(10, extras=("none", "w1", "disR", "enR")), simulate=20, units=(1, 1000)),
+        dict(name="C17_filt_" + fn, consts=F(fn, 9), simulate=15, units=(1, 3000)),
+        dict(name="C17_sock_" + ("def" if df else "imm"), consts=S(df, 10, extras=("none", "w1")), simulate=20, units=(1, 512)),
+    ]
     plan = {
-        "mc": [("C17_mc_pair", bc.consts("pair", DATA | {"flush", "finish", "wmr"}, 4 if q else 6, sizes=(1, 2), drains=(0, 99),
-                                         wms=((0, 0), (0, 1)), durs=(0,), script_until=1), inv)],
-        "gen": [
-            # every history of 3 (4) steps of the data-path alphabet on a pair
-            dict(name="C17_pair_exh", consts=bc.consts("pair", {"write", "enable", "loop", "flush", "finish", "script"}, 3 if q else 4,
+        "mc": [] if q else [("C17_mc_pair", bc.consts("pair", DATA | {"flush", "finish", "wmr"}, 6, sizes=(1, 2), drains=(0, 99),
+                                                      wms=((0, 0), (0, 1)), durs=(0,), script_until=1), inv)],
+        "gen": quick_gen if q else [
+            dict(name="C17_pair_exh", consts=bc.consts("pair", {"write", "enable", "loop", "flush", "finish", "script"}, 4,
                                                        sizes=(1, 3), drains=(0, 99), wms=((0, 0),), durs=(0,), script_until=1),
                  units=(1, 5000)),
-            dict(name="C17_pair_rand", consts=P(10 if q else 14, extras=("none", "w1", "disR", "enR")),
-                 simulate=25 if q else 400, units=(1, 1000) if q else (1, 1000, 70000)),
-            dict(name="C17_filt_id", consts=F("id", 9 if q else 12), simulate=15 if q else 150, units=(1, 3000)),
-            dict(name="C17_filt_one", consts=F("one", 9 if q else 12), simulate=15 if q else 150, units=(1, 3000)),
-            dict(name="C17_filt_two", consts=F("two", 9 if q else 12), simulate=15 if q else 150, units=(1, 3000)),
-            dict(name="C17_sock_imm", consts=S(False, 10 if q else 14, extras=("none", "w1")), simulate=25 if q else 250, units=(1, 512)),
-            dict(name="C17_sock_def", consts=S(True, 10 if q else 14, extras=("none", "w1")), simulate=25 if q else 250, units=(1,)),
+            dict(name="C17_pair_rand", consts=P(14, extras=("none", "w1", "disR", "enR")), simulate=400, units=(1, 1000, 70000)),
+            dict(name="C17_filt_id", consts=F("id", 12), simulate=150, units=(1, 3000)),
+            dict(name="C17_filt_one", consts=F("one", 12), simulate=150, units=(1, 3000)),
+            dict(name="C17_filt_two", consts=F("two", 12), simulate=150, units=(1, 3000)),
+            dict(name="C17_sock_imm", consts=S(False, 14, extras=("none", "w1")), simulate=250, units=(1, 512)),
+            dict(name="C17_sock_def", consts=S(True, 14, extras=("none", "w1")), simulate=250, units=(1,)),
             # one read / write event moves at most 16384 bytes (max_single_read/write): unit = 4096
-            dict(name="C17_sock_caps", consts=S(False, 9 if q else 12, rdcap=4, wrcap=4, sizes=(1, 3, 5), wirecap=8),
-                 simulate=15 if q else 150, units=(4096,)),
-        ] + ([] if q else [
+            dict(name="C17_sock_caps", consts=S(False, 12, rdcap=4, wrcap=4, sizes=(1, 3, 5), wirecap=8), simulate=150, units=(4096,)),
             dict(name="C17_sock_tcp", consts=S(False, 10, extras=("none", "w1")), simulate=60, units=(1, 512), tcp=1),
-        ]),
-        "known": [dict(name="C17_known_eof", key="pair-eof-before-data",
-                       consts=bc.consts("pair", {"write", "wmr", "flush", "finish"}, 3, sizes=(3,), wms=((0, 1),), durs=(0,),
-                                        allow=("pair_eof_before_data",)))],
-                "need": ["write", "flush", "cb:r", "cb:e:f17", "shut", "free"],
+        ],
+        "known": [] if q else [known],
+        "need": ["write", "flush", "cb:r", "cb:e:f17", "free"] + ([] if q else ["shut"]),
         "rule": "TLC enumerates every history of the stated depth (pair_exh) or simulates random histories of the Bev "
                 "specification for pair, filter-over-pair (3 filter functions) and socket bufferevents; each is replayed on "
                 "the real library (several byte sizes per unit) and after every step the callbacks (kind, flags, input "
